@@ -16,6 +16,8 @@ for i in sorted(os.listdir(bd)):
     own = i.split('-')[0]
     files = re.findall(r'^\+\+\+ b/(\S+)', open(os.path.join(d, 'patch.diff')).read(), re.M)
     props = sorted(set(p for f in files for p in MAP.get(f, [])) - {own})
+    if os.environ.get('VERIF_CROSS_PROPS'):
+        props = [p for p in props if p in os.environ['VERIF_CROSS_PROPS'].split(',')]
     if not props:
         continue
     res = {}
